@@ -230,7 +230,7 @@ class RowVars:
         row = [None] * width
         # unmapped columns carry junk that has to be ignored
         for c in range(1, width):
-            row[c] = ("junk%d" % c) if c % 2 else float(c)
+            row[c] = ("junk%d" % c) if c % 2 else float(c)  # unmapped columns: text and plain floats
         for f, _, _ in FIELDS[self.table]:
             if f in lay:
                 row[lay[f]] = self.cell(S, f)
@@ -260,6 +260,10 @@ def jobs(tier):
                 continue
             for pi, _ in enumerate(FEW[t]):
                 js.append({"for": "C11", "mode": "row", "table": t, "layout": name, "pat": ("few", pi), "order": "in,out,intra", "blanks": 0})
+            if tier == "thorough" and name != "base":
+                # every combination of empty / filled optional cells under every layout
+                for pi, _ in enumerate(PATTERNS[t]):
+                    js.append({"for": "C11", "mode": "row", "table": t, "layout": name, "pat": ("all", pi), "order": "in,out,intra", "blanks": 0})
         for pi, _ in enumerate(PATTERNS[t]):
             js.append({"for": "C11", "mode": "row", "table": t, "layout": "base", "pat": ("all", pi), "order": "in,out,intra", "blanks": 0})
     # C11 b: table orders x blank rows, one/two rows per table, all three tables filled
@@ -267,7 +271,11 @@ def jobs(tier):
         for blanks in (0, 2):
             js.append({"for": "C11", "mode": "sheet", "layout": "base" if blanks == 0 else "gaps", "order": ",".join(order), "blanks": blanks, "rows": 1})
     js.append({"for": "C11", "mode": "sheet", "layout": "base", "order": "in,out,intra", "blanks": 1, "rows": 2})
+    js.append({"for": "C11", "mode": "sheet", "layout": "rot:5", "order": "intra,in,out", "blanks": 1, "rows": 2})
     if tier == "thorough":
+        for order in permutations(TABLES):
+            js.append({"for": "C11", "mode": "sheet", "layout": "rot:1", "order": ",".join(order), "blanks": 1, "rows": 2})
+        js.append({"for": "C11", "mode": "sheet", "layout": "base", "order": "in,out,intra", "blanks": 0, "rows": 3})
         js.append({"for": "C11", "mode": "sheet", "layout": "rev", "order": "out,intra,in", "blanks": 1, "rows": 2})
         for in_type in ("GIFT", "DONATE", "AIRDROP", "HARDFORK", "INCOME", "INTEREST", "MINING", "STAKING", "WAGES"):
             js.append({"for": "C11", "mode": "row", "table": "in", "layout": "base", "pat": ("few", 1), "order": "in,out,intra", "blanks": 0, "in_type": in_type})
@@ -341,7 +349,7 @@ def bounds(tier):
 def assumptions():
     return [
         "a symbolic timestamp cell stands for any string that dateutil parses to that tz-aware instant; such a string is never equal to a table keyword",
-        "a numeric cell is an arbitrary real on a 1e-18 grid; '%.11f' is correctly rounded (half-even on exact ties)",
+        "a numeric cell is an arbitrary real on a 1e-18 grid; '%.11f' is correctly rounded (half-even on exact ties); the concrete replay feeds the chosen real as an exact decimal.Decimal cell (a float cell is an exact dyadic rational and is formatted by the same rule)",
         "values with 0 < |v| < 1e-11 are not used (they are zero at the parser's 11 decimals)",
         "C12: a fault is injected into a data row (sheet position >= 2 of its table): position 1 is the header by definition of the format",
     ]
